@@ -55,19 +55,31 @@ def claimed_scheme(func, depth=0):
     rz = [n for n in g.nodes if n.kind == 'raise' and n.ast.exc is not None and norm(n.ast.exc).startswith('WrongUriType')]
     schemes = set()
     first_ok = True
+    def scheme_str(f):
+        s = scheme_of_test(f)
+        if isinstance(s, tuple):
+            defs = [x for x in walk_own(func.node) if isinstance(x, ast.Assign) and norm(x.targets[0]) == s[1]]
+            if defs and isinstance(defs[0].value, ast.Call) and defs[0].value.args and isinstance(defs[0].value.args[0], ast.Constant):
+                mt = re.match(r'^\^?([a-z0-9]+)://', str(defs[0].value.args[0].value))
+                return mt.group(1) if mt else None
+            return None
+        return s
     for n in rz:
         for f in g.facts_at(n):
-            s = scheme_of_test(f)
-            if isinstance(s, tuple):
-                defs = [x for x in walk_own(func.node) if isinstance(x, ast.Assign) and norm(x.targets[0]) == s[1]]
-                if defs and isinstance(defs[0].value, ast.Call) and defs[0].value.args and isinstance(defs[0].value.args[0], ast.Constant):
-                    mt = re.match(r'^\^?([a-z0-9]+)://', str(defs[0].value.args[0].value))
-                    s = mt.group(1) if mt else None
-                else:
-                    s = None
+            s = scheme_str(f)
             if s and f.pol is False:
                 schemes.add(s)
     if rz:
+        # any other exception raised without the scheme test having passed makes the lookup fail for foreign URIs too
+        gate_edges = []
+        for n in rz:
+            for e in g.dominating_edges(n):
+                if e.label and e.label[0] == 'cond' and any(scheme_str(f) for f in e.facts()):
+                    gate_edges += [x for x in e.src.succ if x is not e and x.label and x.label[0] == 'cond']
+        for n in g.nodes:
+            if n.kind == 'raise' and n not in rz and gate_edges:
+                if not any(('e', ge.id) in (g.dom().get(('n', n.id)) or ()) for ge in gate_edges):
+                    first_ok = False
         # side effects before the first refusal: stores to self.* or calls on self.* reachable without passing a refusal test
         first = min(rz, key=lambda n: n.line)
         for n in g.nodes:
@@ -108,7 +120,7 @@ def check(ctx):
         ok = has and len(schemes) == 1 and first_ok
         claims[cname] = sorted(schemes)
         ctx.inst('R1', con, 'refuses-foreign-schemes', ok,
-                 '%s.connect must raise WrongUriType for every URI not starting with its own scheme, before any side effect; gate found for %s'
+                 '%s.connect must raise WrongUriType for every URI not starting with its own scheme, before any side effect or any other exception; gate found for %s'
                  % (cname, sorted(schemes) or 'no scheme: every URI is claimed by this driver'))
         if want and ok:
             ctx.inst('R1', con, 'scheme', sorted(schemes) == [want], '%s claims %s, expected %s://' % (cname, sorted(schemes), want))
@@ -209,6 +221,15 @@ def check(ctx):
     ctx.need(len(labels) >= 6, 'scan_interface: expected six scan labels, found %d' % len(labels))
     for lab, rate, line in labels:
         ctx.inst('R4', si, 'label=last-set-rate:%s@%d' % (lab, line), RATES.get(lab) == rate, 'URIs labelled %s are produced while the radio is set to %s' % (lab, rate), line=line)
+    gsi = cfg_of(si)
+    prog = gsi.find(lambda q: method_call(q, 'set_address'))
+    plain = [n for n in gsi.nodes if n.kind == 'if' and 'DEFAULT_ADDR' in norm(n.ast.test)]
+    okb = len(prog) == 1 and fact_key('address is not None', True) in gsi.fact_keys_at(prog[0][0]) and len(plain) == 1 and \
+        sorted(norm(v) for v in (plain[0].ast.test.values if isinstance(plain[0].ast.test, ast.BoolOp) and isinstance(plain[0].ast.test.op, ast.Or) else [plain[0].ast.test])) == \
+        ['address == DEFAULT_ADDR', 'address is None']
+    ctx.inst('R4', si, 'addressless-uris-iff-default-address', okb,
+             'URIs without an address field are reported exactly when no address or the default address was scanned (`address is None or address == DEFAULT_ADDR`), matching '
+             'the `address is not None` test that programs the radio; a truthiness test mis-files address 0')
     st = {norm(s.targets[0]): norm(s.value) for s in walk_own(si.node) if isinstance(s, ast.Assign)}
     ctx.inst('R4', si, 'scan-address-conversion', st.get('addr') == "'{:0>10X}'.format(address)" and st.get('new_addr') == "struct.unpack('<BBBBB', binascii.unhexlify(addr))",
              'scan address uses the same 10-digit left padding and byte order as parse_uri')
